@@ -84,3 +84,30 @@ pub enum WideInput {
     Flag(bool),
     Text(String),
 }
+
+/// Fields in an unusual order (input table first, a data stack, the step limit in the middle,
+/// another data stack, the exec stack *last*), macro flags and attribute options written in the
+/// other order, `sample_values` present: the macro must go by the attributes, not by position.
+#[derive(Default, Debug, Clone, PartialEq)]
+#[push::push_state(builder, !has_stack)]
+pub struct Odd {
+    #[input_instructions]
+    pub table: HashMap<VariableName, OddInput>,
+    // options spread over several attributes, the instruction name first
+    #[stack(instruction_name = OddInput::Num)]
+    #[stack(builder_name = num)]
+    #[stack(sample_values = [1, 2])]
+    pub numbers: Stack<i64>,
+    #[instruction_step_limit]
+    pub budget: usize,
+    #[stack(sample_values = ["x".to_string()], instruction_name = OddInput::Word)]
+    pub words: Stack<String>,
+    #[stack(exec)]
+    pub program: Stack<u16>,
+}
+
+#[derive(Debug, Clone, PartialEq, Eq)]
+pub enum OddInput {
+    Num(i64),
+    Word(String),
+}
